@@ -5,7 +5,7 @@ range, as soon as the message is shorter than 2^32 bytes (which also bounds the 
 in it: every item and every attribute takes at least 8 bytes).
 -/
 import KmipModel.Lemmas.RangeResults
-import KmipModel.Lemmas.RangeReasons3
+import KmipModel.Lemmas.RangeReasons5
 namespace Kmip.Encode
 open Kmip Kmip.TTLV Kmip.Decode
 open Kmip.EngineResponse (bytesOf verPair)
